@@ -632,7 +632,8 @@ class ResolveVectorNotationTransformer(Transformer):
 
         # Forbidden intrinsic calls in the RHS
         inline_calls = [(_.name).lower() for _ in FindInlineCalls().visit(stmt.rhs)]
-        forbidden_ops = ['present', 'sum']
+        # (array inquiry functions take the array itself, not its elements)
+        forbidden_ops = ['present', 'sum', 'size', 'shape', 'lbound', 'ubound']
         if any(op in inline_calls for op in forbidden_ops):
             return stmt
         if HAVE_FP:
